@@ -2,7 +2,7 @@
 Module to implement a plugin that looks for excessively long lines in the file.
 """
 
-from typing import List, Tuple
+from typing import List, Tuple, cast
 
 from pymarkdown.general.parser_helper import ParserHelper
 from pymarkdown.plugin_manager.plugin_details import (
@@ -13,6 +13,9 @@ from pymarkdown.plugin_manager.plugin_details import (
 from pymarkdown.plugin_manager.plugin_scan_context import PluginScanContext
 from pymarkdown.plugin_manager.rule_plugin import RulePlugin
 from pymarkdown.tokens.markdown_token import MarkdownToken
+from pymarkdown.tokens.setext_heading_markdown_token import (
+    SetextHeadingMarkdownToken,
+)
 
 
 # pylint: disable=too-many-instance-attributes
@@ -146,6 +149,13 @@ class RuleMd013(RulePlugin):
             )
         return line_length > compare_length, compare_length
 
+    @staticmethod
+    def __first_line_of(token: MarkdownToken) -> int:
+        # A SetExt Heading token carries the line of its underline; its text starts earlier.
+        if token.is_setext_heading:
+            return cast(SetextHeadingMarkdownToken, token).original_line_number
+        return token.line_number
+
     def next_line(self, context: PluginScanContext, line: str) -> None:
         """
         Event that a new line is being processed.
@@ -153,7 +163,9 @@ class RuleMd013(RulePlugin):
         if (
             self.__leaf_token_index + 1 < len(self.__leaf_tokens)
             and self.__line_index
-            == self.__leaf_tokens[self.__leaf_token_index + 1].line_number
+            == RuleMd013.__first_line_of(
+                self.__leaf_tokens[self.__leaf_token_index + 1]
+            )
         ):
             self.__leaf_token_index += 1
 
